@@ -31,7 +31,8 @@ Record ejob := mkEJ {
   ej_member : Z; ej_anum : Z; ej_alloc : list Z;      (* minMember, #pods allocated, their requests *)
   ej_vote : Z;                                        (* JobEnqueueable: 0 false, 1 true, 2 not asked *)
   ej_gated : list Z;                                  (* requests of the job's scheduling-gated pods *)
-  ej_avote : Z }.                                     (* Allocatable(queue, a pending pod): 0 / 1 / 2 *)
+  ej_avote : Z;                                       (* Allocatable(queue, a pending pod): 0 / 1 / 2 *)
+  ej_cand : list Z }.                                 (* the request of that pending pod *)
 
 Definition dims : list nat := [0%nat; 1%nat; 2%nat].
 
@@ -92,8 +93,29 @@ Definition open_leaf (hier : bool) (qs : list equeue) (q : Z) : bool :=
   | None => false
   end.
 
+(* the allocation bound for a positive placement vote: along the chain, in every dimension the
+   candidate pod requests and the capability limits, candidate + requests of the pods of the
+   subtree that are in an allocated status <= capability (also when the candidate sits in the
+   capacity plugin's gate-reserved cache, feature gate SchedulingGatesQueueAdmission) *)
+Definition alloc_sum (hier : bool) (qs : list equeue) (js : list ejob) (a : Z) (d : nat) : Z :=
+  fold_left (fun acc j => if in_subtree hier qs a (ej_queue j) then acc + nth d (ej_alloc j) 0 else acc) js 0.
+
+Definition place_within (hier : bool) (qs : list equeue) (js : list ejob) (j : ejob) : bool :=
+  forallb (fun a =>
+    match find_queue qs a with
+    | None => false
+    | Some qa =>
+      forallb (fun d =>
+        match nth d (eq_cap qa) None with
+        | Some c => negb (0 <? nth d (ej_cand j) 0) || (nth d (ej_cand j) 0 + alloc_sum hier qs js a d <=? c)
+        | None => true
+        end) dims
+    end) (chain hier qs (ej_queue j)).
+
+(* kind: 1 capacity flat, 2 capacity hierarchical, 3 proportion; + 10 = the gate-reserved family *)
 Definition law_enqueue (kind : Z) (qs : list equeue) (js : list ejob) : bool :=
-  let hier := kind =? 2 in
+  let hier := (kind mod 10) =? 2 in
+  forallb (fun j => negb (ej_avote j =? 1) || place_within hier qs js j) js &&
   (* placement vote: Allocatable = true only for an Open queue that has no child queue at all
      (leafness computed from the Queue objects' parents, whatever the children's state) *)
   forallb (fun j => negb (ej_avote j =? 1) || open_leaf hier qs (ej_queue j)) js &&
@@ -133,11 +155,11 @@ Fixpoint dec_jobs (n : nat) (l : list Z) : option (list ejob * list Z) :=
   | O => Some ([], l)
   | S k => match l with
            | _id :: q :: pb :: pa :: hasmin :: mask :: m0 :: m1 :: m2 :: mem :: an :: a0 :: a1 :: a2 :: vote ::
-             g0 :: g1 :: g2 :: avote :: r =>
+             g0 :: g1 :: g2 :: avote :: c0 :: c1 :: c2 :: r =>
              match dec_jobs k r with
              | Some (js, r') =>
                Some (mkEJ q pb pa (if hasmin =? 0 then None else Some (masked mask [m0; m1; m2])) mem an [a0; a1; a2] vote
-                          [g0; g1; g2] avote :: js, r')
+                          [g0; g1; g2] avote [c0; c1; c2] :: js, r')
              | None => None end
            | _ => None end
   end.
